@@ -6,6 +6,7 @@
 namespace sim
 {
     const char* const harness_name = "fstring";
+    const bool caller_threads_enabled = true;
 #define X(n) #n,
     const char* const op_names[] = {FSTRING_OPS(X)};
 #undef X
